@@ -57,9 +57,12 @@ CHECKS = {
     "l2_gts_call1": "l2_gts PerCall OneBased",
     "l2_gts_run0": "l2_gts PerRun ZeroBased",
     "l2_gts_run1": "l2_gts PerRun OneBased",
-    "l2_recs_call": "l2_recs PerCall",
-    "l2_recs_run": "l2_recs PerRun",
-    "l2_inst_recs": "l2_inst_recs",
+    "l2_recs_call": "l2_recs PerCall Strict",
+    "l2_recs_run": "l2_recs PerRun Strict",
+    "l2_recs_call_e": "l2_recs PerCall EmptyOk",
+    "l2_recs_run_e": "l2_recs PerRun EmptyOk",
+    "l2_inst_recs": "l2_inst_recs Strict",
+    "l2_inst_recs_e": "l2_inst_recs EmptyOk",
 }
 
 
@@ -183,11 +186,19 @@ def evaluate(ctx, results):
     recs_req = [i for i in range(n) if ok[i][0]["opt"]["recs"]]
     gt_variants = ["l2_gts_call0", "l2_gts_run0", "l2_gts_call1", "l2_gts_run1"]
     gt_rule = next((v for v in gt_variants if all(holds(v, i) for i in gts_req)), None)
-    rec_variants = ["l2_recs_call", "l2_recs_run"]
-    rec_rule = next((v for v in rec_variants if all(holds(v, i) for i in recs_req)), None)
+    # (writer rule, rule for a family without accessible position); the per-call function is compared on every case
+    rec_variants = [("l2_recs_call", "l2_inst_recs"), ("l2_recs_run", "l2_inst_recs"),
+                    ("l2_recs_call_e", "l2_inst_recs_e"), ("l2_recs_run_e", "l2_inst_recs_e")]
+    rec_pair = next(((v, w) for v, w in rec_variants
+                     if all(holds(v, i) for i in recs_req) and all(holds(w, i) for i in range(n))), None)
+    rec_rule, inst_rule = rec_pair if rec_pair else (None, None)
     names = {"l2_gts_call0": "per call, 0-based position (current code)", "l2_gts_run0": "per run, 0-based position",
              "l2_gts_call1": "per call, VCF position", "l2_gts_run1": "per run, VCF position (repaired)",
-             "l2_recs_call": "per call (current code)", "l2_recs_run": "per run (repaired)", None: "none of the modelled rules"}
+             "l2_recs_call": "per call, assertion on families without accessible variant (current code)",
+             "l2_recs_run": "per run, assertion on families without accessible variant",
+             "l2_recs_call_e": "per call, no event for families without accessible variant",
+             "l2_recs_run_e": "per run, no event for families without accessible variant (repaired)",
+             None: "none of the modelled rules"}
     ctx.extra["changed_genotype_list_rule_followed"] = names[gt_rule]
     ctx.extra["recombination_list_rule_followed"] = names[rec_rule]
 
@@ -245,7 +256,7 @@ def evaluate(ctx, results):
                 ctx.violation("phase:recombination-entry-outside-phase-set",
                               "a listed recombination does not lie between two variants of one phase set of its family: " + desc, rp)
             if not holds("rec_cover", i):
-                if holds("l2_recs_call", i):
+                if holds("l2_recs_call", i) or holds("l2_recs_call_e", i):
                     ctx.violation("phase:recombination-list-overwritten",
                                   "recombination events of an earlier (chromosome, family) are missing from the recombination list: "
                                   "the file is rewritten (mode 'w') for every chromosome and family: " + desc, rp)
@@ -265,7 +276,9 @@ def evaluate(ctx, results):
 
     l2("l2_reads", sorted(bad["l2_reads"]), "AuxReports.run read list = --output-read-list file (L2)")
     l2("l2_vcf", sorted(bad["l2_vcf"]), "AuxReports.write_records genotypes = output VCF genotypes (L2)")
-    l2("l2_inst_recs", sorted(bad["l2_inst_recs"]), "AuxReports.inst_rec_entries = write_recombination_list on each traced instance (L2)")
+    if inst_rule is None:
+        l2("l2_inst_recs", sorted(bad["l2_inst_recs"] if bad["l2_inst_recs"] else bad["l2_inst_recs_e"]),
+           "AuxReports.inst_rec_entries = write_recombination_list on each traced instance (L2)")
     if gt_rule is None:
         l2("l2_gts", [i for i in gts_req if not holds("l2_gts_call0", i)], "AuxReports.run changed-genotype list = file under one writer rule (L2)")
     if rec_rule is None:
